@@ -237,6 +237,8 @@ def vclass(typ, val):
         return ('neg' if val < 0 else 'pos') + '-%ddigits' % len(str(abs(val)))
     if typ == 's':
         return 'len%d' % len(val)
+    if not isinstance(val, (int, float)):
+        return type(val).__name__
     if val == 0:
         return 'zero'
     e = math.floor(math.log10(abs(val)))
